@@ -118,7 +118,7 @@ func buildRiffTokens(seed int64) *riffTokens {
 			t.pay[base+v] = b
 		}
 	}
-	t.pay["anim"] = []byte{0x44, 0x33, 0x22, 0x11, 7, 0}
+	t.pay["anim"] = []byte{0x44, 0x33, 0x22, 0x11, 7, 0x80} // loop count 32775: the top bit of the 16-bit field is set
 	t.pay["f-vp8"] = anmfPayload(0, 0, t.w, t.h, 50, 0, chunkBytes("VP8 ", t.pay["vp8"]))
 	t.pay["f-vp8l"] = anmfPayload(0, 0, t.w, t.h, 70, 2, chunkBytes("VP8L", t.pay["vp8l"]))
 	t.pay["f-vp8la"] = anmfPayload(0, 0, t.w, t.h, 30, 0, chunkBytes("VP8L", t.pay["vp8la"]))
@@ -262,6 +262,9 @@ func judgeHeaders(v headerViews, still, wellFormed, packageWritten bool, expW, e
 	return "", ""
 }
 
+// loop counts of the muxer-written files: two distinct bytes, and the top bit of the 16-bit field set
+var c16Loops = []int{258, 40000, 65535, 32768}
+
 func checkC16(args []string) {
 	run := vx.NewRun("C16", "model_checking", args)
 	activeRun = run
@@ -389,7 +392,7 @@ func checkC16(args []string) {
 			if cv[0] > 0 {
 				m.SetCanvasSize(cv[0], cv[1])
 			}
-			m.SetLoopCount(258 + i)
+			m.SetLoopCount(c16Loops[i])
 			for k := 0; k < nf; k++ {
 				o := &mux.FrameOptions{Duration: 70001 + k}
 				if cv[0] == 0 {
@@ -415,7 +418,7 @@ func checkC16(args []string) {
 			if ew == 0 {
 				ew, eh = -1, -1
 			}
-			if key, msg := judgeHeaders(v, false, true, true, ew, eh, nf, 258+i, 1); key != "" {
+			if key, msg := judgeHeaders(v, false, true, true, ew, eh, nf, c16Loops[i], 1); key != "" {
 				run.Violate(key+"|mux-output", nm+": "+msg, nm)
 			}
 		}
